@@ -53,7 +53,27 @@ def has_nested_in_if(body):
     return False
 
 
+def nested_else(body):
+    """an if/else nested inside another construct (the removal / resolution bookkeeping has to tell the
+    nested `else`/`end` from those of the instrumented construct)"""
+    pr = Prog(body)
+    return any(op[0] == "else" and len(pr.labels[i]) >= 2 for i, op in enumerate(body))
+
+
 def body_family(pid, tier, seed):
+    fam = body_family0(pid, tier, seed)
+    if pid in ("C21", "C19", "C18", "C20", "C16"):
+        # targeted sub-family: budget-4 bodies with an if/else nested inside another construct (184 bodies)
+        rnd = random.Random(2000 + seed)
+        ne = [b for b in F.bodies(4, 3) if nested_else(b)]
+        k = {"C21": 60, "C19": 30, "C18": 20, "C20": 20, "C16": 10}[pid]
+        extra = ne if tier == "thorough" else (ne[:3] + rnd.sample(ne, k))
+        seen = set(repr(b) for b in fam)
+        fam = fam + [b for b in extra if repr(b) not in seen]
+    return fam
+
+
+def body_family0(pid, tier, seed):
     rnd = random.Random(1000 + seed)
     b2 = F.bodies(2, 2)
     b3 = F.bodies(3, 3)
